@@ -8,7 +8,7 @@ from bridge import regex as BR
 
 from gambatools.regexp_algorithms import regexp_accepts_word, regexp_simplify
 
-ASSUMPTIONS = ["symbols are single characters; expressions are built from Zero, One, Symbol, Sum, Concat, Iteration objects",
+ASSUMPTIONS = ["symbols are single characters or identifiers of several characters (a symbol s denotes the language {s}); expressions are built from Zero, One, Symbol, Sum, Concat, Iteration objects",
                "size = number of nodes of the expression tree"]
 
 
@@ -72,7 +72,7 @@ def run_simplify(case):
 
 @st.composite
 def match_cases(draw, tier):
-    syms = draw(st.sampled_from([["a"], ["a", "b"], ["a", "b", "c"], ["0", "1"]]))
+    syms = draw(st.sampled_from([["a"], ["a", "b"], ["a", "b", "c"], ["0", "1"], ["ab", "a"], ["ab", "ba", "b"]]))
     t = draw(GR.trees(syms, max_leaves=8))
     S = sorted(RX.symbols(t)) or ["a"]
     extra = draw(st.sampled_from([[], [], [], ["z"]]))
@@ -82,7 +82,7 @@ def match_cases(draw, tier):
 
 @st.composite
 def simp_cases(draw, tier):
-    syms = draw(st.sampled_from([["a"], ["a", "b"], ["a", "b", "c"], ["0", "1"]]))
+    syms = draw(st.sampled_from([["a"], ["a", "b"], ["a", "b", "c"], ["0", "1"], ["ab", "a"], ["ab", "ba", "b"]]))
     return {"re": draw(GR.trees(syms, max_leaves=12))}
 
 
